@@ -118,6 +118,11 @@ class MonitoredCore(printcore):
         self.__dict__["_mon"].append(("resendfrom", value, threading.current_thread().name))
         self.__dict__["_resendfrom_value"] = value
 
+    def logError(self, error):
+        # "Print thread died due to the following error: ..." and friends
+        self.__dict__["_mon"].append(("error", str(error)[-300:], threading.current_thread().name))
+        return super().logError(error)
+
     def _send(self, command, lineno=0, calcchecksum=False):
         prefix = f"N{lineno} " if calcchecksum else ""
         self.__dict__["_mon"].append(("send", prefix + command, threading.current_thread().name))
@@ -268,6 +273,8 @@ def stream_job(ctx, col, case, tag, rng, job, faults, lat, perturb=True):
         col.count(f"switch:{role(a)}->{role(b)}", n)
     conserved, n_sends, n_tokens = tokens_conserved(list(p.__dict__["_mon"]))
     info["flow_control_tokens_conserved"] = conserved
+    # errors of the sending side itself (the listener also logs every "Error:" line of the device)
+    info["sender_errors"] = [e[1] for e in p.__dict__["_mon"] if e[0] == "error" and e[2] != "read thread"]
     info["_mon"] = list(p.__dict__["_mon"])
     col.count("flow_control_events_observed", len(p.__dict__["_mon"]))
     col.count("jobs_with_conserved_tokens" if conserved else "jobs_with_unlicensed_transmissions")
@@ -367,6 +374,14 @@ def analyse(ctx, col, case, info, dev, beh, want, verdict):
     if unnumbered:
         return fail("job-transmission-without-line-number-or-checksum", lines=[u.decode("latin1") for u in unnumbered[:5]])
     # ---- end to end ------------------------------------------------------------
+    if verdict == "stalled" and dev.accepted == want:
+        # the firmware accepted the whole job exactly once and in order -- what C15 states -- but the
+        # sender never reported completion (seen once: a late duplicate of an earlier line makes the
+        # firmware ask for the line after the last one, and the print thread dies of a KeyError in
+        # sentlines).  Outside the statement: noted, not judged.
+        col.note("job accepted completely but the sender never reported completion"
+                 + (" (print thread died)" if info.get("sender_errors") else ""))
+        return True
     if verdict == "stalled":
         return fail("sender-stalled-with-lines-outstanding", mech=classify(info, dev, want, "stalled", beh),
                     accepted_count=len(dev.accepted))
@@ -396,7 +411,13 @@ def classify(info, dev, want, what, beh):
         # ... and it presupposes that the sender itself kept its flow-control bookkeeping intact
         # (every transmission licensed by a clear-to-send event of its own): a tail lost by a sender
         # that transmitted without a licence is a different defect.
-        if len(beh.corrupted) >= 2 and info.get("flow_control_tokens_conserved", True):
+        # ... and that the sender got as far as transmitting every line of the job at least once and
+        # ended by itself: a print thread that died of an exception, or lines that were never put on
+        # the wire at all, are a different defect with the same end-to-end symptom.
+        sent_numbers = {int(NUMBERED.match(r).group(1)) for r in dev.rx_raw if NUMBERED.match(r)}
+        all_sent = all(n in sent_numbers for n in range(len(want)))
+        if (len(beh.corrupted) >= 2 and info.get("flow_control_tokens_conserved", True)
+                and all_sent and not info.get("sender_errors")):
             return "c15:tail-lost-after-repeated-resend"
     return None
 
